@@ -804,7 +804,7 @@ class RealBackend(object):
             if isinstance(leaf, A.AsyncTask):
                 ci = _inst_of(leaf)
                 if ci is not None:
-                    if plain and not ci.started and not leaf.is_computed():
+                    if plain and not ci.started and not leaf.is_computed() and not any(ci is x for x in grp):
                         grp.append(ci)
         if len(grp) > 1:
             self.order_groups.append(grp)
